@@ -48,6 +48,24 @@ def oracle_components(R, tier, seed):
                     if bad: _fail(O1, "C18:ViscousDrag:" + sorted(bad)[0], desc, errors=bad, lengths=lengths.tolist(), widths=widths.tolist(), toc=toc.tolist())
                     else: O1["ok"] += 1
                     R.mark("c18v", ny, sym, k_lam, rep)
+            # continuity in the laminar fraction: a fine sweep of k_lam through small values (a seeded change that clamped
+            # k_lam < 0.01 to fully turbulent at set-up was missed while k_lam was drawn from {0, 0.05, 0.5, 1}): the largest
+            # increment between neighbours of a uniform sweep must shrink in proportion when the sweep is refined
+            lengths, widths, lsp, toc = _strip(rng, ny); re0 = float(10 ** rng.uniform(6.0, 7.3)); M = float(rng.uniform(0.1, 0.9))
+
+            def cdv_k(k):
+                sf = gen.tube_surface(np.zeros((2, ny, 3)), symmetry=sym, k_lam=float(k))
+                o, _, _ = core.run_comp(ViscousDrag(surface=dict(sf, with_viscous=True), with_viscous=True),
+                                        {"re": re0, "Mach_number": M, "S_ref": 50.0, "widths": widths, "lengths_spanwise": lsp, "lengths": lengths, "t_over_c": toc}, want_J=False)
+                return float(o["CDv"].ravel()[0])
+            ks = np.linspace(0.002, 0.03, 15); coarse = np.array([cdv_k(k) for k in ks])
+            kf = np.linspace(0.002, 0.03, 29); fine = np.array([cdv_k(k) for k in kf])
+            jc, jf = np.abs(np.diff(coarse)).max(), np.abs(np.diff(fine)).max()
+            O1["cases"] += 1
+            if jf > 0.75 * jc and jc > 1e-9 * coarse.max():
+                _fail(O1, "C18:ViscousDrag:discontinuous-in-laminar-fraction", {"ny": ny, "sym": sym, "re": re0, "M": M, "seed": seed},
+                      largest_increment_15_points=float(jc), largest_increment_29_points=float(jf), k_lam=ks.tolist(), CDv=coarse.tolist())
+            else: O1["ok"] += 1
             for rep in range(reps * 2):
                 chords, widths, lsp, toc = _strip(rng, ny); toc = toc * 0.5
                 CL = float(rng.uniform(0.0, 1.0))
